@@ -819,4 +819,13 @@ def check(ctx, rep):
 
     # the duplicate-tool status (1) depends on every run of every SARIF input being looked at: a handler that ends the reading of a file early hides a duplicate
     rule_every_input_read(ctx, rep)
+    from .c12 import rule_one_shot_iter
+
+    # the missing-input status (1) depends on the existence loop in run() seeing every result file: a one-shot iterator that something
+    # else (a listing in the log) has already walked hands the loop nothing
+    rule_one_shot_iter(ctx, rep)
+    from .c14 import rule_decode_handled
+
+    # status 0 for a completed run: a manifest that cannot be decoded is `no manifest can be updated`, not a traceback (status 1, no report)
+    rule_decode_handled(ctx, rep)
     rep.not_covered += ["which argument vectors argparse itself rejects", "exceptions escaping run() (traceback, status 1 from the interpreter)"]
